@@ -166,11 +166,22 @@ func bip340Verify(pk, msg, sig []byte) bool {
 	e := new(big.Int).SetBytes(taggedHash("BIP0340/challenge", sig[:32], pk, msg))
 	e.Mod(e, secpN)
 	G := jpoint{secpGx, secpGy, big.NewInt(1)}
-	sG := jMul(s, G)
 	ne := new(big.Int).Sub(secpN, e)
 	ne.Mod(ne, secpN)
-	eP := jMul(ne, P)
-	R := jAdd(sG, eP)
+	// R = s*G + (n-e)*P in one double-and-add pass (Shamir's trick)
+	GP := jAdd(G, P)
+	R := jInf()
+	for i := 255; i >= 0; i-- {
+		R = jDouble(R)
+		switch sb, eb := s.Bit(i), ne.Bit(i); {
+		case sb == 1 && eb == 1:
+			R = jAdd(R, GP)
+		case sb == 1:
+			R = jAdd(R, G)
+		case eb == 1:
+			R = jAdd(R, P)
+		}
+	}
 	x, y, ok := jAffine(R)
 	if !ok {
 		return false
